@@ -382,6 +382,53 @@ def check_transform(program, rep):
               'copy as third and the dict itself as fourth argument: edits '
               'land in the copy, or the transformer sees its own edits as '
               '"initial"', line=ap.node.lineno)
+    # an in-repo copy function: a dict / list comes back as a new container
+    # of (copied) elements, anything else as itself - on every path
+    if ok and isinstance(init_v, ast.Call):
+        r_ = program.lookup(ap.module, dotted(init_v.func) or '')
+        if r_ and r_[0] == 'func' and r_[1].cls is None:
+            cf = r_[1]
+            cp_ = cf.params()[0] if cf.params() else None
+            badc = None
+            n_ret = 0
+            for ex in Walker(program, _D(program)).run(cf, None):
+                if ex.kind == 'raise':
+                    continue
+                n_ret += 1
+                cd_ = {e.sym.text: e.extra for e in ex.state.trace
+                       if e.kind == 'cond'}
+                isd = cd_.get(f'isinstance({cp_}, dict)')
+                isl = cd_.get(f'isinstance({cp_}, list)')
+                pv = ex.payload.node if ex.payload is not None else None
+                if isd is True:
+                    good = isinstance(pv, ast.DictComp) or (isinstance(
+                        pv, ast.Call) and norm(pv.func) in (
+                            'dict', f'{cp_}.copy'))
+                    if not good:
+                        badc = badc or (ex.node, 'a dict is not returned as '
+                                        'a new dict of its (copied) items')
+                elif isl is True:
+                    good = isinstance(pv, ast.ListComp) or (isinstance(
+                        pv, ast.Call) and norm(pv.func) in (
+                            'list', f'{cp_}.copy'))
+                    if not good:
+                        badc = badc or (ex.node, 'a list is not returned as '
+                                        'a new list of its (copied) items')
+                elif isd is False and isl is False:
+                    if pv is None or norm(pv) != cp_:
+                        badc = badc or (ex.node, 'a value that is neither a '
+                                        'dict nor a list is not returned '
+                                        'as it is')
+            rep.check(badc is None and n_ret >= 3, 'C15.transform-copy',
+                      cf.where, badc[0] if badc else cf.node.name,
+                      'the copy handed to the transformers has the structure '
+                      'of the dict (new containers, shared leaves)',
+                      (badc[1] if badc else 'the copy function does not '
+                       'distinguish dict / list / other') + ': the "initial" '
+                      'description a transformer compares against is not a '
+                      'faithful copy of the component / processor dict',
+                      line=getattr(badc[0], 'lineno', cf.node.lineno)
+                      if badc else cf.node.lineno)
     rep.check(deep is None, 'C15.transform-copy', ap.where,
               deep if deep is not None else 'copy handed to the transformers',
               'the copy handed to a transformer is not a deep copy of '
